@@ -110,6 +110,8 @@ class SimSelector(selectors._BaseSelectorImpl):
         super().__init__()
         self.sim = sim
         self.order_rng = order_rng
+        self._idle_at = -1
+        self._idle_polls = 0
 
     def _ready(self):
         out = []
@@ -135,15 +137,30 @@ class SimSelector(selectors._BaseSelectorImpl):
         r = self._ready()
         if r:
             return r
-        if timeout is not None and timeout <= 0:
-            return []
         sim = self.sim
+        if timeout is not None and timeout <= 0:
+            # The loop clock is a float. Far from the origin a due timer can compare
+            # equal to time() + resolution and never fire while the (real) clock
+            # would simply move on: after many idle polls at one instant, tick once.
+            if self._idle_at == sim.now:
+                self._idle_polls += 1
+                if self._idle_polls > 64:
+                    sim.now += max(1, int(sim.now * 2.3e-16))
+                    sim.count("sched.float-clock-tick")
+            else:
+                self._idle_at = sim.now
+                self._idle_polls = 0
+            return []
         if timeout is None:
             if sim.next_event_time() is None:
                 raise HarnessError("event loop would block forever (no timers, no events)")
             deadline = 10**18
         else:
-            deadline = sim.now + int(math.ceil(timeout * 1e9))
+            deadline = sim.now + max(1, int(round(timeout * 1e9)))
+            # the loop clock is a float: make sure the advance is visible through it
+            target = sim.now / 1e9 + timeout
+            while deadline / 1e9 < target:
+                deadline += max(1, int(deadline * 2.3e-16))
         sim.run_until(deadline, stop=lambda: bool(self._ready_quick()))
         return self._ready()
 
